@@ -33,10 +33,14 @@ KINDS = {
     # a name from output.booleanAttributes / a `name.` attribute with a value written: the value is kept like any other
     'x[hidden=until a=b]': dict(name='x', attrs=[('hidden', 'until'), ('a', 'b')]),
     'x[loop=3 e.=v]': dict(name='x', attrs=[('loop', '3'), ('e', 'v')]),
+    # an expression value keeps its braces; fields inside multi-line text stay on their text line
+    'x[e={v} a=b]': dict(name='x', attrs=[('e', ('expr', 'v')), ('a', 'b')]),
+    'x{l1\nl2 ${1:f} l3}': dict(name='x', text=['l1', 'l2 f l3']),
+    'x{l1 ${1:g}\nl2${0}}': dict(name='x', text=['l1 g', 'l2']),
     'x.k1.k2.k3.k4.k5.k6.k7.k8.k9.k10.k11': dict(name='x', cls=['k%d' % i for i in range(1, 12)]),
 }
 SMALL = ['x', '.c', 'x#i.c[a=b d]', 'x{l1\nl2}', 'br/', 'div[a=b]']
-MID = ['x', '.c', '#i', 'x#i.c[a=b d]', 'x{t}', 'x{l1\nl2}', 'br/', 'div[a=b]', 'x[hidden=until a=b]']
+MID = ['x', '.c', '#i', 'x#i.c[a=b d]', 'x{t}', 'x{l1\nl2}', 'br/', 'div[a=b]', 'x[hidden=until a=b]', 'x[e={v} a=b]', 'x{l1\nl2 ${1:f} l3}']
 TINY = ['x', '.c', 'x{l1\nl2}', 'br/']
 SYNTAXES = ['haml', 'pug', 'slim']
 INDENTS = ['\t', '  ', '    ']
@@ -86,7 +90,7 @@ def expected_lines(tree, syntax, indent, depth=0, parent_name='', out=None):
             head += '.' + '.'.join(k['cls'])
         attrs = k.get('attrs') or []
         if attrs:
-            parts = ['%s="%s"' % (a, v if v is not None else '') for a, v in attrs]
+            parts = ['%s={%s}' % (a, v[1]) if isinstance(v, tuple) else '%s="%s"' % (a, v if v is not None else '') for a, v in attrs]
             if syntax == 'haml':
                 head += '(' + ' '.join(parts) + ')'
             elif syntax == 'pug':
